@@ -864,3 +864,73 @@ var ruleCacheSet = &Rule{
 		return obs
 	},
 }
+
+// ---------------------------------------------------------------------------------------------
+// LOCFILE: positions are per file
+
+var ruleLocFile = &Rule{
+	Name:    "LOC/position-filter-has-file",
+	NeedSSA: true,
+	Text:    "locations are positions inside ONE file. In every function that builds (file, location) results (it stores DefineStruct.StrFile), a containment test Location.IsInLocStruct(line, col) between a location that is not the loop element's own and the element's coordinates executes only where a string equality test has succeeded (the file of the element equals the file the other location belongs to): otherwise an occurrence in another file that happens to sit at the same line and column is taken for the definition and dropped",
+	Run: func(c *Ctx) []Ob {
+		var obs []Ob
+		n := 0
+		for _, f := range c.ModFns() {
+			builds := false
+			for _, b := range f.Blocks {
+				for _, ins := range b.Instrs {
+					if st, ok := ins.(*ssa.Store); ok {
+						if fa, ok := st.Addr.(*ssa.FieldAddr); ok && namedName(fa.X.Type()) == "DefineStruct" && fieldOf(fa).Name() == "StrFile" {
+							builds = true
+						}
+					}
+				}
+			}
+			if !builds {
+				continue
+			}
+			cnt := 0
+			for _, b := range f.Blocks {
+				for _, ins := range b.Instrs {
+					call, ok := ins.(*ssa.Call)
+					if !ok || call.Call.StaticCallee() == nil || call.Call.StaticCallee().Name() != "IsInLocStruct" {
+						continue
+					}
+					n++
+					cnt++
+					key := fmt.Sprintf("LOC/position-filter:%s#%d", fnKey(f), cnt)
+					guarded := false
+					for d := b; d != nil && !guarded; d = d.Idom() {
+						id := d.Idom()
+						if id == nil {
+							break
+						}
+						iff, ok := id.Instrs[len(id.Instrs)-1].(*ssa.If)
+						if !ok {
+							continue
+						}
+						bo, ok := iff.Cond.(*ssa.BinOp)
+						if !ok || bo.Op != token.EQL {
+							continue
+						}
+						bt, ok := bo.X.Type().Underlying().(*types.Basic)
+						if !ok || bt.Kind() != types.String {
+							continue
+						}
+						if id.Succs[0] == d || id.Succs[0].Dominates(b) {
+							guarded = true
+						}
+					}
+					if guarded {
+						obs = append(obs, Ob{Key: key, Site: c.Pos(call.Pos()), Verdict: OK})
+					} else {
+						obs = append(obs, Ob{Key: key, Site: c.Pos(call.Pos()), Verdict: VIOLATION,
+							Note: "a stored location is matched against the coordinates of an occurrence without a dominating file-equality test: positions of two different files are compared"})
+					}
+				}
+			}
+		}
+		obs = append(obs, floor("LOC/position-filter-has-file", "IsInLocStruct tests in functions that build (file, location) results", n, 4))
+		return obs
+	},
+}
